@@ -51,6 +51,7 @@ static long g_next_inst = 1;
 
 static __thread int vh_tid = -999;
 static __thread long vh_cur_inst = 0;
+static __thread long vh_cur_src = -1;
 static __thread uint64_t vh_rng = 0;
 static int g_ext_ctr = 300;
 
@@ -143,9 +144,19 @@ void liblcb_verif_point(const char *label, const void *a, const void *b, uintptr
 		g_tp = (tp_p)(uintptr_t)a;
 	}
 	pthread_mutex_lock(&g_log_mu);
+	if (0 == strcmp(label, "bsend.init") || 0 == strcmp(label, "cbsend.init")) {
+		/* a new shared record: the same address (stack slot / recycled heap block) gets a fresh id */
+		for (int i = 0; i < g_nobj; i++) if (g_obj[i] == a) g_obj[i] = (const void *)&g_obj[i];
+	}
+	if (0 == strcmp(label, "send.src")) { /* merged into the send.enter record that follows */
+		vh_cur_src = oid_locked(a);
+		pthread_mutex_unlock(&g_log_mu);
+		errno = saved_errno;
+		return;
+	}
 	if (0 == strcmp(label, "send.enter")) {
 		vh_cur_inst = g_next_inst++;
-		logf_locked("\"e\":\"send.enter\",\"i\":%ld,\"d\":%ld,\"u\":%ld,\"f\":%lu", vh_cur_inst, oid_locked(a), oid_locked(b), (unsigned long)val);
+		logf_locked("\"e\":\"send.enter\",\"i\":%ld,\"d\":%ld,\"u\":%ld,\"f\":%lu,\"s\":%ld", vh_cur_inst, oid_locked(a), oid_locked(b), (unsigned long)val, vh_cur_src);
 	} else if (0 == strncmp(label, "send.", 5)) {
 		logf_locked("\"e\":\"%s\",\"i\":%ld,\"d\":%ld,\"u\":%ld,\"v\":%lu", label, vh_cur_inst, oid_locked(a), oid_locked(b), (unsigned long)val);
 	} else if (0 == strcmp(label, "recv.run")) {
@@ -594,6 +605,13 @@ int main(int argc, char **argv) {
 				LOGEV("\"e\":\"call.ctl\",\"m\":%d,\"d\":%d", m->id, w);
 				int rc = tpt_msg_send(&g_tp->threads[w], NULL, 0, ctl_cb, m);
 				LOGEV("\"e\":\"ret.ctl\",\"m\":%d,\"rc\":%d", m->id, rc);
+				for (int tries = 0; rc != 0 && rc != EHOSTDOWN && tries < 50; tries++) { /* an armed fault or a full pipe hit the control message */
+					usleep(200);
+					m = msg_get(g_msg_next_internal++, K_CTL); m->prog = g_act[i].prog; g_act[i].ctl = m;
+					LOGEV("\"e\":\"call.ctl\",\"m\":%d,\"d\":%d", m->id, w);
+					rc = tpt_msg_send(&g_tp->threads[w], NULL, 0, ctl_cb, m);
+					LOGEV("\"e\":\"ret.ctl\",\"m\":%d,\"rc\":%d", m->id, rc);
+				}
 				if (rc != 0) m->finished = 1;
 			}
 		} else if (!strcmp(op, "join")) {
